@@ -794,6 +794,27 @@ func deep(depth int, arr bool) *N {
 	return cur
 }
 
+// approxSize: encoded size of a body tree, roughly
+func approxSize(n *N) int {
+	switch n.K {
+	case 's', 'r', 'x':
+		return len(n.S) + 3
+	case 'a':
+		t := 3
+		for _, x := range n.A {
+			t += approxSize(x)
+		}
+		return t
+	case 'o':
+		t := 3
+		for _, kv := range n.O {
+			t += len(kv.K) + 3 + approxSize(kv.V)
+		}
+		return t
+	}
+	return 6
+}
+
 func (g *gen) resize(n *N, l int) {
 	if n.K != 'a' {
 		return
@@ -923,6 +944,13 @@ func (g *gen) mutate(root *N) (kind, path string, jsonOnly, mpOnly bool) {
 			l := vh.Pick(g.r, []int{0, 1, len(cur.A) - 1, len(cur.A) + 1, 2, 3, 5, 2000, 2001, 4096, 4097, 101, 10001})
 			if l < 0 {
 				l = 0
+			}
+			// a batch of 10001 points of 4096 dimensions is a 200 MB body: it says nothing that the same count of
+			// small points does not say (the sweep sends those), and costs the run half a minute on a loaded machine
+			if len(cur.A) > 0 {
+				if per := approxSize(cur.A[0]); per*l > 24<<20 {
+					l = max((24<<20)/per, 101)
+				}
 			}
 			g.resize(cur, l)
 			return fmt.Sprintf("array-len-%d", l), path, false, false
